@@ -167,11 +167,29 @@ static void retrieval(Tape &t, Ctx &ctx) {
             // a request that selects the block [i..j]: start inside the interval before x_i, end inside the one after x_j
             uint64_t n = s.ext[d];
             uint64_t i = t.below(static_cast<uint32_t>(n)), j = i + t.below(static_cast<uint32_t>(n - i));
-            double st = stepAt(ax, i, n);
+            // the interval BEFORE x_i (ticks need not be evenly spaced)
+            double st = i > 0 ? ax.coord(i) - ax.coord(i - 1) : stepAt(ax, i, n);
             q.i = i;
             q.p = ax.coord(i) - std::fabs(st) * (0.2 + 0.6 * t.unit());
             q.cls = "before(" + std::to_string(i) + ")";
             e = hasExt ? ax.coord(j) + std::fabs(stepAt(ax, j, n)) * (0.2 + 0.6 * t.unit()) - q.p : 0.0;
+        }
+        // "values chosen so that rescaling is exact": start and end must keep a clear distance from every
+        // coordinate, so that the rounding of value / factor * factor cannot move them across one
+        {
+            uint64_t lim = ax.bounded() ? ax.n() : s.ext[d] + 3;
+            bool clear = true;
+            double vals[2] = {q.p, q.p + e};
+            for (int w = 0; w < (hasExt ? 2 : 1) && clear; w++)
+                for (uint64_t k = 0; k < lim; k++) {
+                    double x = ax.coord(k), v = vals[w];
+                    if (std::fabs(v - x) <= 1e-9 * std::max(std::max(std::fabs(v), std::fabs(x)), 1e-300)) { clear = false; break; }
+                }
+            if (!clear) {
+                ctx.count("excluded:bound_too_close_to_a_coordinate");
+                f.close();
+                return;
+            }
         }
         p0[d] = q.p;
         e0[d] = e;
